@@ -70,7 +70,7 @@ Section Subst.
   Lemma id_rel n w r t : wfq (EId n w r t) = true ->
     rel (EId n w r t) (match adict_get (pool_id s) (EId n w r t) with Some v => v | None => EId n w r t end).
   Proof.
-    intros W. pose proof W as W'. simpl in W'. apply andb_true_iff in W' as [Pw Q]. apply Z.ltb_lt in Pw.
+    intros W. pose proof W as W'. simpl in W'. apply andb_true_iff in W' as [Pw Q]. apply andb_true_iff in Pw as [Pw _]. apply Z.ltb_lt in Pw.
     rewrite (lookup_get _ _ _ _ Q). unfold rel. destruct t.
     - split; [exact W|]. split; [reflexivity|]. simpl. unfold rho'.
       destruct (lookup_name (pool_id s) n) as [v|] eqn:L; [|reflexivity].
@@ -178,7 +178,7 @@ Section Subst.
     assert (G1 : good IdQ rho' mu iota e e1).
     { apply (visit_good IdQ rho' mu iota simpF); [|exact W | exact V]. intros x x' Wx Hx. apply simpF_good; assumption. }
     apply (rel_of_good' e e1 e' G1). destruct G1 as (W1 & _ & _). clear V W T e.
-    destruct e1 as [sg w v|n w r t|addr w sg|op args|c a b| | |]; try (simpl in W1; discriminate).
+    destruct e1 as [sg w v|n w r t|addr w sg|op args|c a b|sa lo hi| |]; try (simpl in W1; discriminate).
     - inversion H; subst. split; [exact W1|]. split; reflexivity.
     - inversion H; subst. apply id_rel. exact W1.
     - (* memory cell, register-only state *)
@@ -233,6 +233,24 @@ Section Subst.
       destruct (vc =? 0) eqn:Z0.
       + split; [exact Wb'|]. split; [simpl; congruence|]. simpl. rewrite <- Q. exact Evb.
       + split; [exact Wa'|]. split; [simpl; congruence|]. simpl. rewrite <- Q. exact Eva.
+    - (* slice *)
+      destruct (wf_slice_inv IdQ _ _ _ W1) as (Wsa & L0 & Llh & Lhs).
+      destruct (eval_expr f s sa) as [[y| |]|] eqn:Ea; simpl in H; try discriminate.
+      unfold lift at 1 in H. destruct (simpF y) as [a'| |] eqn:Es; simpl in H; try discriminate.
+      assert (Ra : rel sa a') by (apply (rel_after_good sa y a' (IH _ _ Wsa Ea)); apply simpF_good; [apply (IH _ _ Wsa Ea) | exact Es]).
+      destruct Ra as (Wa' & Sa' & Eva).
+      assert (Gen : rel (ESlice sa lo hi) (ESlice a' lo hi)).
+      { split; [|split; [reflexivity|]].
+        - simpl. rewrite Wa', Sa'. cbn [andb]. apply andb_true_iff. split; [apply andb_true_iff; split; [apply Z.leb_le; lia | apply Z.ltb_lt; lia] | apply Z.leb_le; lia].
+        - simpl. rewrite Eva. reflexivity. }
+      destruct a' as [sgi wi vi| |am wm sm| | | | |]; try (inversion H; subst e'; exact Gen).
+      + unfold lift in H. destruct (simpF (ESlice (EInt sgi wi vi) lo hi)) as [z| |] eqn:Ez; simpl in H; try discriminate. inversion H; subst e'.
+        apply (rel_after_good _ _ z Gen). apply simpF_good; [apply Gen | exact Ez].
+      + destruct ((lo =? 0) && (hi =? wm)) eqn:Full; inversion H; subst e'; [|exact Gen].
+        apply andb_true_iff in Full as [F1 F2]. apply Z.eqb_eq in F1, F2. subst lo hi. simpl in Sa'.
+        split; [exact Wa'|]. split; [simpl; lia|].
+        rewrite Eva. change (ev' (ESlice sa 0 wm)) with (wrap (wm - 0) (Z.shiftr (ev' sa) 0)).
+        destruct (wf_range IdQ rho' mu iota sa Wsa) as [_ R]. rewrite <- Sa' in R. symmetry. rewrite Z.shiftr_0_r, Z.sub_0_r. apply Z.mod_small. exact R.
   Qed.
 End Subst.
 
